@@ -1,4 +1,6 @@
 """C01 — accepted commands reach the wire once each, in order, unsubstituted."""
+import json
+
 import sockcheck
 import sockgen
 
@@ -32,6 +34,43 @@ def _reset_window():
     return out
 
 
+def _cancel_window(ctx, gen):
+    """the caller of one send() gives up (its task is cancelled, as a timeout around the call does) while the link is congested
+    and other commands are in flight: the connection stays up and no write fails, so every OTHER accepted command is still
+    transmitted exactly once and in order, promptly once the congestion clears, and the cancelled one is never written twice"""
+    import sockobs
+    scripts = []
+    for k in range(0, 5):
+        for j in range(0, 4):
+            scripts.append([("net", "accept"), ("open",), ("adv", 8), ("send", 1, "ok", "idem"), ("adv", 1), ("block", 1), ("send", 2, "ok", "idem"), ("turn", k),
+                            ("send", 3, "ok", "nonidem"), ("send", 5, "ok", "idem"), ("turn", j), ("cancel", 2), ("turn", 2), ("block", 0), ("adv", 8),
+                            ("send", 6, "ok", "idem"), ("adv", 8)])
+            scripts.append([("net", "accept"), ("open",), ("adv", 8), ("block", 1), ("send", 1, "ok", "idem"), ("turn", k), ("send", 2, "ok", "idem"), ("turn", j),
+                            ("cancel", 1), ("turn", 1), ("block", 0), ("adv", 40)])
+    for sc, r in zip(scripts, sockcheck.run_scripts(scripts, gen=gen)):
+        if "error" in r:
+            raise RuntimeError("socket harness failed on %r: %s" % (sc, r["error"]))
+        ctx.case(("cancel-window", gen, json.dumps(sc)))
+        cancelled = [op[1] for op in sc if op[0] == "cancel"]
+        accepted = [int(l.split()[1]) for l in r["obs"] if l.startswith("accept ")]
+        wires = [int(l.split()[2]) for l in r["obs"] if l.startswith("wire ")]
+        why = None
+        for sid in accepted:
+            n = wires.count(sid)
+            if sid in cancelled:
+                if n > 1:
+                    why = "the cancelled command %d was transmitted %d times" % (sid, n)
+            elif n != 1:
+                why = "command %d was accepted, the connection stayed up and no write failed, yet it was transmitted %d times by the end of the run" % (sid, n)
+        order = [s for s in wires if s not in cancelled]
+        if why is None and order != [s for s in accepted if s in order]:
+            why = "commands reached the wire in the order %s, accepted in the order %s" % (order, accepted)
+        if why:
+            ctx.violation("C01:cancel-window", "a caller of send() was cancelled on a congested link (script %s): %s" % (json.dumps(sc), why), kind="history",
+                          monitor="cancel-window", script=sc, gen=gen, implementation_output=r["obs"], spec_verdict=why)
+            return
+
+
 def _nontrivial(script, r):
     return sum(1 for op in script if op[0] == "send") >= 2
 
@@ -54,7 +93,8 @@ def run(ctx, deep=False):
         items += _reset_window()
         good = sockcheck.judge_family(ctx, "C01", items, MONITORS, gen=gen, nontrivial=_nontrivial)
         sockcheck.validate_against_model(ctx, good, "AT%d" % gen)
-    ctx.assumptions += ["partial writes / the kernel send buffer are below the model (owned by asyncio's transport)"]
+        _cancel_window(ctx, gen)
+    ctx.assumptions += ["cancellation of a caller of send() is exercised on the implementation only (the socket model has no label for it)", "partial writes / the kernel send buffer are below the model (owned by asyncio's transport)"]
 
 
 def search(ctx):
